@@ -50,6 +50,8 @@ type scriptT struct {
 	// CancelPairingWithSKI pauses between its look into the registry and its clearing of the trust (hook hub.VerifPoint) until
 	// a dial that is under way has become a connection, at most 300 ms: a legal schedule of the call made likely
 	Gate bool `json:"gate"`
+	// the hub's report of a completed handshake takes this many milliseconds (a slow application)
+	HoldComplete int `json:"holdComplete"`
 }
 
 type evT struct {
@@ -263,34 +265,35 @@ func (r *appReader) HandleShipPayloadMessage(m []byte) {
 }
 
 type node struct {
-	name      string
-	ski       string
-	l         *elog
-	eth       *ether
-	h         *hub.Hub
-	mgr       *mdns.MdnsManager
-	prov      *provider
-	px        *proxy
-	mu        sync.Mutex
-	writer    api.ShipConnectionDataWriterInterface
-	writers   []api.ShipConnectionDataWriterInterface
-	received  []string
-	sent      []string
-	lastWord  string
-	lastNote  string
-	setups    int
-	discs     int
-	shipIDs   int
-	nsent     int
-	gen       int
-	inboxMu   sync.Mutex
-	inbox     []func()
-	inboxBusy bool
-	conns     []*liveConn // live.go
-	nconn     int
-	gateOn    bool
-	gateBase  int
-	connBase  int
+	name         string
+	ski          string
+	l            *elog
+	eth          *ether
+	h            *hub.Hub
+	mgr          *mdns.MdnsManager
+	prov         *provider
+	px           *proxy
+	mu           sync.Mutex
+	writer       api.ShipConnectionDataWriterInterface
+	writers      []api.ShipConnectionDataWriterInterface
+	received     []string
+	sent         []string
+	lastWord     string
+	lastNote     string
+	setups       int
+	discs        int
+	shipIDs      int
+	nsent        int
+	gen          int
+	inboxMu      sync.Mutex
+	inbox        []func()
+	inboxBusy    bool
+	conns        []*liveConn // live.go
+	nconn        int
+	gateOn       bool
+	gateBase     int
+	holdComplete time.Duration
+	connBase     int
 }
 
 // gate is the HubReaderInterface of one incarnation of a hub
@@ -557,6 +560,7 @@ func runScript(s scriptT) obsT {
 		ports[name] = freePort()
 		n.px = newProxy(fmt.Sprintf("127.0.0.1:%d", ports[name]))
 		n.px.slow = time.Duration(s.SlowDial) * time.Millisecond
+		n.holdComplete = time.Duration(s.HoldComplete) * time.Millisecond
 		hn := name
 		n.px.onOpen = func() { l.add(hn, "StreamOpen", "") } // a stream towards hub hn: its peer dialled
 		n.prov = &provider{n: n}
@@ -715,6 +719,23 @@ func runScript(s scriptT) obsT {
 					if !(st == model.SmeHelloStateReadyListen && peerPending && !registered[other[name]]) {
 						busy = true
 					}
+				}
+			}
+		}
+		// a pair that ought to be connected (both users registered, both in sight, nobody shut down, no wrong SHIP id) and is
+		// not: on a starved machine a pause of 1.5 s between two attempts looks like rest. A pair that is really stuck stays
+		// stuck, so it is waited for six rounds before the state is taken as one at rest
+		eth.mu.Lock()
+		want := registered["A"] && registered["B"] && eth.visible["A"] && eth.visible["B"] && !shut["A"] && !shut["B"] &&
+			s.IDs["A"] != "wrong" && s.IDs["B"] != "wrong"
+		eth.mu.Unlock()
+		if want && !busy && round < 6 {
+			for name, n := range eth.nodes {
+				c, ok := n.h.VerifRegistry()[skis[other[name]]]
+				if !ok {
+					busy = true
+				} else if st, _ := c.ShipHandshakeState(); st != model.SmeStateComplete {
+					busy = true
 				}
 			}
 		}
